@@ -246,6 +246,22 @@ impl Ctx {
         s
     }
 
+    /// Draw `n` values from a strategy with this run's seeded generator (no shrinking; for sweeps that
+    /// enumerate a dimension themselves and use proptest for the remaining context).
+    pub fn draw<S: Strategy>(&mut self, n: usize, strategy: S) -> Vec<S::Value> {
+        let seed = self.next_seed();
+        let cfg = Config { failure_persistence: None, rng_algorithm: RngAlgorithm::ChaCha, ..Config::default() };
+        let rng = proptest::test_runner::TestRng::from_seed(RngAlgorithm::ChaCha, &seed);
+        let mut runner = TestRunner::new_with_rng(cfg, rng);
+        let mut out = Vec::with_capacity(n);
+        for _ in 0..n {
+            if let Ok(t) = strategy.new_tree(&mut runner) {
+                out.push(t.current());
+            }
+        }
+        out
+    }
+
     /// Drive `check` with `cases` generated values (this worker's share).  On the first `Err` the value is
     /// shrunk by proptest; the minimal case and its message are returned.  `check` must be deterministic.
     pub fn proptest<S, F>(&mut self, total_cases: u32, strategy: S, mut check: F) -> Option<(S::Value, String)>
